@@ -38,21 +38,6 @@ theorem lower_idem (s : Str) : lower (lower s) = lower s := by
 
 /-! ### front ends: the generic tree is the document -/
 
-mutual
-/-- a document proper: no null (YAML turns it into "", TOML cannot write it) and no `nilArr` (not a document value). -/
-def plainDoc : J → Bool
-  | .null => false
-  | .nilArr => false
-  | .arr l => plainDocList l
-  | .obj m => plainDocMap m
-  | _ => true
-def plainDocList : JL → Bool
-  | .nil => true
-  | .cons h t => plainDoc h && plainDocList t
-def plainDocMap : JM → Bool
-  | .nil => true
-  | .cons _ v t => plainDoc v && plainDocMap t
-end
 
 theorem glue_num_yaml (lit : Str) : yamlGlue (embY (.num lit)) = .num lit := by
   unfold embY
